@@ -35,8 +35,8 @@ def sh(cmd, **kw):
 def sha_files(paths, extra=""):
     h = hashlib.sha256()
     h.update(extra.encode())
-    for p in sorted(paths):
-        h.update(p.encode())
+    for p in sorted(paths, key=os.path.basename):
+        h.update(os.path.basename(p).encode())
         try:
             with open(p, "rb") as f:
                 h.update(f.read())
